@@ -1047,7 +1047,7 @@ class cached_render:
         yield "widget-info-is-this-call", both(mk_bool(w2.e == a.self.e), mk_bool(z2.e == a.size.e), eq(f2, eff_focus))
         yield "an-entry-for-this-key-holds-this-canvas", implies(mk_bool(cache._widgets.cached(*key)), mk_bool(cache._widgets.val2(*key) == ref_of(result.e)))
         # the two call-site facts store's invariant clauses rely on hold here: fetch has just missed (no entry under the
-        # key) and the canvas was not finalized before this call (so no cached entry holds its reference)
+        # key: render-only-on-a-miss) and the canvas was not finalized before this call (no cached entry holds its reference)
         yield "cache-maps-stay-inverse", implies(full_inv(cache0), full_inv(cache))
 
 
